@@ -365,9 +365,9 @@ Lemma add_all_cons x xs Fc :
   add_all (x :: xs) Fc = if holdsb (fst (add_all xs Fc)) x then add_all xs Fc else (add_fact x (fst (add_all xs Fc)), true).
 Proof. reflexivity. Qed.
 
-Lemma add_all_holds xs Fc y : holds (interp (fst (add_all xs Fc))) y <-> In y xs \/ holds (interp (fst Fc)) y.
+Lemma add_all_holds xs Fc : forall y, holds (interp (fst (add_all xs Fc))) y <-> In y xs \/ holds (interp (fst Fc)) y.
 Proof.
-  induction xs as [|x xs IH].
+  induction xs as [|x xs IH]; intros y.
   - simpl. split; [auto|intros [[]|H]; auto].
   - rewrite add_all_cons. destruct (holdsb (fst (add_all xs Fc)) x) eqn:E.
     + rewrite IH. apply holdsb_spec in E.
